@@ -160,6 +160,7 @@ func init() {
 			{Name: "edges", Run: edgeUnit("sam")},
 			{Name: "fieldlens", TShards: 4, Run: lengthUnit("sam")},
 			{Name: "parallel", Race: true, Run: codecParallel("sam", "samh")},
+			{Name: "histories", Run: codecHistories("sam", "samh")},
 		},
 	})
 }
